@@ -158,8 +158,30 @@ def t_hash_attr_lists(ex):
         ex.oblige(f"{P}.ensures.equal_restrictions_hash_alike", Implies(eq, as_bool(models.eq(it, ha.value, hb.value))))
 
 
+MATCH_ATTRS = ("category", "package", "op", "fullver", "version", "revision", "negate_vers", "slot", "subslot", "use", "repo_id")
+
+
+def t_atom(ex):
+    """atoms: the attributes equality compares determine every attribute atom.restrictions reads (C04), so equal atoms
+    build the same restriction and match alike; in particular the *spelling* of the version, which the `=*` glob matches on"""
+    import pkgcore.ebuild.cpv as C
+    from contracts import c02
+    P = "C07.atom"
+    it = Interp(ex, label=P, contracts={C.ver_cmp: c02.vc_contract(ex)})
+    a, b = c02.mk_atom(ex, "1"), c02.mk_atom(ex, "2")
+    c02.vc_laws(ex, [a, b])
+    c02.atom_invariant(ex, a, b)
+    c02.atom_invariant(ex, b, a)
+    eq = c02.atom_eq_spec(it, a, b)
+    ex.inputs.update({f"{k}{i}": o.fields[k] for i, o in ((1, a), (2, b)) for k in ("cpvstr", "fullver", "op", "use")})
+    for n in MATCH_ATTRS:
+        r = models.eq(it, a.fields[n], b.fields[n])
+        ex.oblige(f"{P}.ensures.equal_atoms_agree_on_{n}", Implies(eq, as_bool(r)))
+
+
 def tasks():
     return [
+        Task("C07.atom", t_atom, [("src/pkgcore/ebuild/atom.py", "atom.__init__")]),
         Task("C07._VersionMatch", t_versionmatch, [(F_RST, f"_VersionMatch.{n}") for n in ("__eq__", "_convert_ops", "__hash__", "match")]),
         Task("C07.values", t_values, [(F_VAL, "StrExactMatch.match"), (F_VAL, "StrGlobMatch.match"), (F_VAL, "ContainmentMatch.match")]),
         Task("C07.hash_lists", t_hash_attr_lists, [(F_PKG, "PackageRestriction.__hash__"), (F_PKG, "Conditional.__hash__"), (F_BOOL, "base.__hash__")]),
@@ -187,4 +209,25 @@ def replay_vm(model):
     return bool(bad), f"{a!r} vs {b!r}: " + ("; ".join(bad) or "consistent")
 
 
-REPLAY = {"C07._VersionMatch": replay_vm}
+def replay_atom(model):
+    """probe: differently spelled equal versions under every operator, matched against packages of both spellings"""
+    from pkgcore.ebuild.atom import atom
+    from pkgcore.ebuild.cpv import VersionedCPV
+    pkgs = [VersionedCPV(f"a/b-{v}") for v in ("1.0", "1.00", "1.01", "1.0-r1", "1.001", "2", "2-r0", "2-r1", "2-r01")]
+    bad = []
+    for op, glob in (("=", ""), ("=", "*"), ("~", ""), (">=", ""), ("<", "")):
+        for x, y in (("1.0", "1.00"), ("2", "2-r0"), ("2-r1", "2-r01")):
+            if op == "~" and "-r" in x + y:
+                continue
+            p, q = atom(f"{op}a/b-{x}{glob}"), atom(f"{op}a/b-{y}{glob}")
+            if p == q:
+                if hash(p) != hash(q):
+                    bad.append(f"{p} == {q} but hashes differ")
+                for k in pkgs:
+                    if p.match(k) != q.match(k):
+                        bad.append(f"{p} == {q} but only one matches {k.cpvstr}")
+                        break
+    return bool(bad), "; ".join(bad[:4]) or "equal atoms of the probe set match alike"
+
+
+REPLAY = {"C07._VersionMatch": replay_vm, "C07.atom": replay_atom}
